@@ -112,3 +112,39 @@ func VerifC07_BlueGreenDeploymentTargetSuffices() {
 	verifrt.Assert(ctx.IsBatchReady() == nil, "C07.bgdeploy.targetSufficesForReadiness")
 	verifrt.Cover("done")
 }
+
+// VerifC07_BlueGreenDeploymentFirstBatchStartsTheWorkload: Initialize leaves the Deployment paused with the initial
+// surge of 1; the first UpgradeBatch is the only thing that un-pauses it and writes the batch's surge.  For every plan
+// whose current batch asks for at least one pod it therefore writes that patch — also when the batch asks for exactly
+// one pod (numerically the initial surge): a batch left un-started waits for pods that will never be created.
+func VerifC07_BlueGreenDeploymentFirstBatchStartsTheWorkload() {
+	rc, cli, R := vSetup()
+	verifrt.Assume(R >= 1)
+	one := intstr.FromInt(1)
+	rc.object.Spec.Strategy.RollingUpdate.MaxSurge = &one // as Initialize leaves it
+	rc.object.Spec.Paused = true
+	rc.WorkloadInfo = util.ParseWorkload(rc.object)
+	release, _, _ := vh.Release(R, nil)
+	plan := release.Spec.ReleasePlan.Batches[release.Status.CanaryStatus.CurrentBatch].CanaryReplicas
+	planPods := vSurgePods(plan, R)
+	ctx, err := rc.CalculateBatchContext(release)
+	if err != nil || ctx == nil {
+		return
+	}
+	err = rc.UpgradeBatch(ctx)
+	verifrt.Assert(err == nil, "C07.bgdeploy.firstBatch.noerror")
+	if planPods >= 1 {
+		verifrt.Cover("asks-for-pods")
+		ps := cli.Writes("patch", "Deployment")
+		verifrt.Assert(len(ps) == 1, "C07.bgdeploy.firstBatch.startsTheWorkload")
+		if len(ps) == 1 {
+			paused, _ := verifrt.JSONGet(ps[0].Body, "spec", "paused")
+			verifrt.Assert(paused == "false", "C07.bgdeploy.firstBatch.unpauses")
+		}
+	}
+}
+
+// C06: a batch that is executed again (an earlier batch after a plan change, the same batch after a crash) writes
+// nothing, or exactly what it wrote before — never a smaller surge: C01.bgdeploy.upgrade.neverMovesBack /
+// skipOnlyIfAlreadyThere of the same one-step relation.
+func VerifC06_BlueGreenDeploymentReexecutedBatchNeverMovesBack() { VerifC01_BlueGreenDeploymentBatch() }
